@@ -118,6 +118,10 @@ CHECKS = {
                 jobs=lambda t: J("domexplore", "prod-hsw", []) + J("domexplore", "asan-hsw", []),
                 budget=dict(quick=150, thorough=3000),
                 rule="explicit-state BFS over mutation-API histories of a real document (pool allocator and ledger-tracking freeing allocator) against a plain-container model (vector of values / vector of pairs, RemoveMember moving the last member into the hole); after every transition Dump() equals the model serialisation, every accessor agrees, toggling the lookup map on objects with distinct keys changes nothing, the serialised text round-trips; every transition is executed on the implementation by replaying the history on fresh objects."),
+    "C13": dict(level="model_checking", engine="docexplore",
+                jobs=lambda t: J("docexplore", "asan-hsw", [], fills=[0x06] if t == "quick" else [0xbe, 0x06, 0x0c]) + J("domexplore", "asan-hsw", ["--only", "M_track_nestedmap"], label="asan-hsw/domexplore-track"),
+                budget=dict(quick=150, thorough=3000),
+                rule="explicit-state BFS over histories of two documents using a ledger-tracking allocator that really frees (Parse valid/invalid/deep, ParseOnDemand, ParseSchema, document move/swap, cross-document CopyFrom, node mutations, destroy/recreate at any point) under ASan: every block obtained from the allocator is returned exactly once (no double or foreign free, no use after free), nothing is left allocated when the last owner dies (ledger empty, heap at baseline), and each document's Dump() equals its own model after every step so that a deep copy is independent of its source. The mutation-API explorer with the same tracking allocator (domexplore, one start state) is run as a second job."),
 }
 
 
